@@ -126,7 +126,11 @@ func genProgram(r *verifsim.Rng) (src, expect string, parts []string) {
 	for i := 0; i < n; i++ {
 		switch k := r.Intn(10); {
 		case k < 2:
-			parts = append(parts, fmt.Sprintf("objprops|%d|%s", i, strings.Join(pickNames(r, 2+r.Intn(5)), ",")))
+			n := 2 + r.Intn(5)
+			if r.Intn(5) == 0 {
+				n = 9 + r.Intn(6) // objects with many properties
+			}
+			parts = append(parts, fmt.Sprintf("objprops|%d|%s", i, strings.Join(pickNames(r, n), ",")))
 		case k < 3:
 			parts = append(parts, fmt.Sprintf("inherit|%d|%s|%s", i, strings.Join(pickNames(r, 1+r.Intn(3)), ","), strings.Join(pickNames(r, 1+r.Intn(3)), ",")))
 		case k < 4:
@@ -145,7 +149,12 @@ func genProgram(r *verifsim.Rng) (src, expect string, parts []string) {
 				parts = append(parts, fmt.Sprintf("mutate|%d|%s|%s", i, strings.Join(names[:len(names)-2], ","), strings.Join(ops, ",")))
 				break
 			}
-			parts = append(parts, fmt.Sprintf("arr|%d|%s", i, strings.Join(pickNames(r, 2+r.Intn(5)), ",")))
+			names := pickNames(r, 2+r.Intn(5))
+			if r.Intn(4) == 0 {
+				// numeric-looking string keys keep insertion order too
+				names = append(names, verifsim.Pick(r, []string{"10", "9", "007", "1.5", "-3"}), verifsim.Pick(r, []string{"2", "100", "08"}))
+			}
+			parts = append(parts, fmt.Sprintf("arr|%d|%s", i, strings.Join(names, ",")))
 		default:
 			parts = append(parts, fmt.Sprintf("arrfn|%d|%d", i, r.Intn(len(arrFns))))
 		}
